@@ -121,6 +121,13 @@ def check(run, M, tier):
     # every other class inherits N1 (counted)
     run.ok("N2", "inherited default", "%d classes inherit the default A^H A" % (len(classes) - len(overrides)))
 
+    # ---- N4b consumers never update the result of A.N(x) / A.H(y) in place inside the functions they hand to the solvers
+    run.rule("N4b", "the closures LinearLeastSquares builds around A.N never update an operator result in place (an Identity normal operator returns the iterate itself)")
+    from ..common import check_operator_results_not_updated
+    from ..effects import Effects
+    _eff = Effects(M)
+    _cl = [f for q, f in sorted(M.funcs.items()) if f.parent is not None and q.startswith("sigpy.app.LinearLeastSquares.")]
+    check_operator_results_not_updated(run, _eff, "N4b", _cl, "the iterate x, so that the solver no longer works on A^H A x")
     # ---- N4
     offenders = []
     for c in [base] + classes:
